@@ -309,6 +309,28 @@ class Model(object):
             else:
                 t = set(self.tree(q['in_tree']))
                 sel = [u for u in sel if u in t]
+        if 'required' in q:
+            # plain form only: every listed trait (1.18+)
+            want = q['required'].split(',')
+            if v < (1, 18) or any(
+                    t.startswith(('!', 'in:')) for t in want):
+                raise KeyError('model does not cover required=%s at %s'
+                               % (q['required'], v))
+            if not all(self.trait_exists(t) for t in want):
+                return Expect(400)
+            sel = [u for u in sel if set(want) <= self.traits[u]]
+        if 'member_of' in q:
+            # plain forms only: one aggregate, or in:a,b (any of them)
+            val = q['member_of']
+            if v < (1, 3) or val.startswith('!'):
+                raise KeyError('model does not cover member_of=%s' % val)
+            any_of = set((val[3:] if val.startswith('in:') else
+                          val).split(','))
+            sel = [u for u in sel if any_of & self.aggregates[u]]
+        unknown = set(q) - {'name', 'uuid', 'in_tree', 'required',
+                            'member_of'}
+        if unknown:
+            raise KeyError('model does not cover query %s' % sorted(unknown))
         return Expect(200, body={'resource_providers':
                                  [self._rp_body(v, u) for u in sel]})
 
